@@ -137,6 +137,10 @@ class Walk(Core.System):
                 env.move(a, dx, dy)
                 cells = env.get_moore_neighbours(a[Envs.PositionComponent], 1)
                 tr.append(('cell', a.id, m.random.choice(cells)))
+                # the tuple form of the answer is the caller's list: shuffled in place here, as models do
+                around = env.get_neumann_neighbours(a[Envs.PositionComponent], 2, True, tuple)
+                m.random.shuffle(around)
+                tr.append(('around', a.id, around[0]))
             else:
                 env.move(a, m.random.uniform(-1.5, 1.5), m.random.uniform(-1.5, 1.5))
                 near = env.get_agents_at(a[Envs.PositionComponent].x, a[Envs.PositionComponent].y, leeway=2.0)
@@ -201,6 +205,13 @@ class OptModel(SModel):
 
     def __init__(self, **options):
         super().__init__(options.get('kind', 'plain'), options.get('seed'), options.get('n', 5))
+
+
+class KwOnlyModel(SModel):
+    """A model whose seed is a keyword-only parameter."""
+
+    def __init__(self, kind='plain', *, seed=None, n=5):
+        super().__init__(kind, seed, n)
 
 
 def finish(model):
@@ -393,8 +404,8 @@ def matrix_cell(how, seeds, steps):
     elif how in ('batch1', 'batch2'):
         vals = []
         for k in KINDS:
-            # every other kind is run through the model class that takes free keyword options
-            cls = OptModel if KINDS.index(k) % 2 else SModel
+            # the kinds take turns with the model classes: positional seed, free keyword options, keyword-only seed
+            cls = (SModel, OptModel, KwOnlyModel)[KINDS.index(k) % 3]
             res = Batching.batch_run(cls, {'kind': k, 'seed': list(seeds)}, collectors=['trace', 'AgentCollector'],
                                      processes=1 if how == 'batch1' else 2, max_timesteps=steps)
             by_seed = {}
